@@ -403,7 +403,8 @@ def fault_table(prog: Program, rep: Report) -> None:
     guard(rep, prog, rule, rl, "no release before the stop time", [g for g in after_stop if stop_filters and g.lineno > max(f.lineno for f in stop_filters)], "no `len(self._df) == 0` guard after the stop-time filter")
     guard(rep, prog, rule, rl, "no release inside the window (cold start)", [g for g in after_start if start_filters and g.lineno > max(f.lineno for f in start_filters)], "no `len(self._df) == 0 and not warm_start_file` guard after the start-time filter")
     for g in after_start:
-        rep.check(rule, rl.qual, short(g.test), unparse(g.test) == "len(self._df) == 0 and (not warm_start_file)", what_bad="only a warm start may begin with an empty release table", what_ok="cold start only", loc=rl.loc(g))
+        conj = {unparse(v) for v in (g.test.values if isinstance(g.test, ast.BoolOp) and isinstance(g.test.op, ast.And) else [g.test])}
+        rep.check(rule, rl.qual, short(g.test), conj == {"len(self._df) == 0", "not warm_start_file"}, what_bad="only a warm start may begin with an empty release table", what_ok="cold start only", loc=rl.loc(g))
     guard(rep, prog, rule, rl, "missing release file name", find_ifs(rl, lambda t: unparse(t) in ("release_file == ''", "not release_file")), "an empty release file name is not refused")
     # (f) missing position
     cp = prog.role_func("release", "clean_position")
@@ -488,7 +489,7 @@ def startup_reachability(prog: Program, rep: Report) -> None:
             roots.append(prog.role_func(role, "__init__"))
         except AnalysisError:
             pass
-    roots.append(prog.func("model.Model.__init__"))
+    roots.append(prog.view("model.Model.__init__"))
     reach = prog.reachable(roots)
     # every function holding a critical log is reachable at start-up
     for fi in prog.all_functions():
